@@ -273,6 +273,24 @@ Definition master (s : st) : st :=
   end.
 
 (* ---- the SIGCHLD handler --------------------------------------------------------------------- *)
+(* self._stopping (the repaired tree): False in __init__, set by the FIRST statement of stop(), never cleared.  stop() is
+   entered only through [enter_stop] - inside one Master step, or inside the handler when run() catches HaltServer - which
+   ends at kill_workers' snapshot, and the master leaves the pcs of stop() only to enter stop() again (handle_int / quit ->
+   halt) or to exit; so at every point where a handler can run the flag is true exactly at these pcs. *)
+Definition in_stop (p : pc) : bool :=
+  match p with
+  | PKillAllSnap _ (KAWait _ _) | PKillAllSnap _ (KADone _)
+  | PKillAll _ _ (KAWait _ _) | PKillAll _ _ (KADone _)
+  | PStopWait _ _ | PStopNap _ _ => true
+  | _ => false
+  end.
+Definition stopping (s : st) : bool := in_stop (cur s).
+
+(* reap_workers: `if exitcode == self.WORKER_BOOT_ERROR [and not self._stopping]: raise HaltServer(...)`; which of the two
+   forms the tree under test has is read from its source by gen_arbiter.py ([reap_guards_halting]) *)
+Definition raises (s : st) : bool := negb (reap_guards_halting && stopping s).
+Arguments raises : simpl never.
+
 (* reap_workers: returns the state and the exit status of a HaltServer raised inside the handler *)
 Fixpoint reap (fuel : nat) (s : st) : st * option Z :=
   match fuel with
@@ -285,13 +303,14 @@ Fixpoint reap (fuel : nat) (s : st) : st * option Z :=
           if reexec s1 =? c_pid z then reap f (set_reexec s1 0)
           else
             let code := Z.shiftr (status_of z) 8 in
-            if code =? worker_boot_error then (s1, Some worker_boot_error)
-            else if code =? app_load_error then (s1, Some app_load_error)
+            if (code =? worker_boot_error) && raises s1 then (s1, Some worker_boot_error)
+            else if (code =? app_load_error) && raises s1 then (s1, Some app_load_error)
             else reap f (set_workers s1 (remove_wk (c_pid z) (workers s1)))
       end
   end.
 
-(* is the master inside the stop() called by halt()?  (an exception raised there leaves run()) *)
+(* is the master inside the stop() called by halt()?  (an exception raised there leaves run(): nothing catches it, the
+   interpreter prints the traceback and exits with status 1, the pid file stays) *)
 Definition after_is_exit (a : after) : bool := match a with AExit _ => true | AHalt => false end.
 Definition in_final_stop (p : pc) : bool :=
   match p with
@@ -306,7 +325,7 @@ Definition chld (s : st) : st :=
   match reap (S (length (kids s))) s with
   | (s1, None) => set_woken s1 true
   | (s1, Some code) =>
-      if in_final_stop (cur s1) then set_pc s1 PCrashed          (* HaltServer escapes from halt() *)
+      if in_final_stop (cur s1) then set_pc s1 PCrashed          (* HaltServer escapes from halt(): only without the guard *)
       else enter_stop s1 true (AExit code)                        (* except HaltServer: halt(reason, status) *)
   end.
 
